@@ -18,7 +18,7 @@
   the thorough tier) and the C07 twin-run oracle.
 -/
 import CatVerif.Proofs.RoundTrip
-import CatVerif.Proofs.Steps
+import CatVerif.Proofs.Steps.Format
 namespace Cat
 open Spec
 
